@@ -1149,6 +1149,9 @@ pub struct TwinDirector {
     stalls_left: u32,
     stall_now: bool,
     /// FragCancel: program indices whose call is cancelled at a pending write
+    /// programs: the broker's PUBCOMPs are being held back
+    hold: bool,
+    held: VecDeque<Vec<u8>>,
     cut_steps: Vec<usize>,
     cut_taken: bool,
     cut_pending: bool,
@@ -1187,6 +1190,8 @@ impl TwinDirector {
             cancels_left: 6,
             stalls_left: 2,
             stall_now: false,
+            hold: false,
+            held: VecDeque::new(),
             cut_steps: Vec::new(),
             cut_taken: false,
             cut_pending: false,
@@ -1355,7 +1360,12 @@ impl Director for TwinDirector {
         self.inner.last_pending = ' ';
         if !view.has_conn {
             let mut redial = false;
-            if let Some(Step::Reconnect { connack }) = self.program.front() {
+            if let Some(Step::Reconnect { setid, .. }) = self.program.front_mut() {
+                if let Some(id) = setid.take() {
+                    return TopDec::SetNextId(id);
+                }
+            }
+            if let Some(Step::Reconnect { connack, .. }) = self.program.front() {
                 self.inner.connack_extra = connack.clone();
                 self.program.pop_front();
                 self.next_index += 1;
@@ -1376,8 +1386,25 @@ impl Director for TwinDirector {
         }
         // the broker's answers enter the inbound stream as soon as they exist, so that their place
         // relative to the program does not depend on how the transport schedule went
-        if let Some(pkt) = self.inner.broker.outq.pop_front() {
+        while let Some(pkt) = self.inner.broker.outq.pop_front() {
+            if self.hold && pkt[0] >> 4 == 7 {
+                self.held.push_back(pkt);
+                continue;
+            }
             return TopDec::Inject(pkt);
+        }
+        if self.continuation.is_none() {
+            if let Some(Step::Hold { on }) = self.program.front() {
+                self.hold = *on;
+                self.program.pop_front();
+                self.next_index += 1;
+                if !self.hold {
+                    while let Some(pkt) = self.held.pop_back() {
+                        self.inner.broker.outq.push_front(pkt);
+                    }
+                }
+                return self.top(view);
+            }
         }
         let step = match self.continuation.take() {
             Some(step) => {
